@@ -201,6 +201,8 @@ def run(tier, only=None):
     vlib.build()
     cl.ensure_shim()
     rng = random.Random(seed())
+    import durability_common
+    durability_common.model_check(ck, tier)
     hists, r = gen_histories(tier)
     ck.add_tlc("HistGen simulate", r)
     trace, counters, neff = [], {}, 0
